@@ -171,6 +171,7 @@ struct World
     bool monitors_on = false;
     bool want_c08 = false;
     Monitors* mon = nullptr;
+    void* book = nullptr;  // booksim.cpp
     std::map<std::string, int64_t> counters;
     RunResult result;
 
@@ -215,6 +216,9 @@ struct World
 extern World* W;
 extern int64_t W_clock_reads;
 void poison_entry(World* w, uint64_t key, uint64_t eseed, const engine::Position* pos_for_plausible);
+std::string book_substitute(World* w, const std::string& line);
+void book_check_bestmove(World* w, GoRec& g);
+void book_teardown(World* w);
 
 }  // namespace sim
 
